@@ -46,3 +46,94 @@ theorem all_safe (c : Cfg) (sch : List Nat) : safe (run c (init c) sch) = true :
   exact inv_of_closed c (reach c) safe this.1 this.2 sch
 
 end Thr2Timer
+
+/-! # Any number of actions on one event-loop thread: the invariant -/
+
+namespace Thr2LoopN
+
+/-- every item waiting in the loop's local deque is due; an item disposed before its due time is flagged;
+nothing has started early or after an early dispose -/
+def J (s : St) : Prop :=
+  (∀ i ∈ s.ready, s.due i = true) ∧ (∀ i, s.early i = true → s.c i = true) ∧ s.tooEarly = false ∧ s.bad = false
+
+theorem collect_J (s : St) (l : List Nat) (h : J s) : J (collect s l) ∧ (collect s l).pc = s.pc := by
+  induction l generalizing s with
+  | nil => exact ⟨h, rfl⟩
+  | cons i rest ih =>
+    simp only [collect]
+    split
+    · next hd =>
+      have := ih { s with dq := set s.dq i true, ready := s.ready ++ [i] }
+        ⟨fun j hj => by
+            rcases List.mem_append.1 hj with h' | h'
+            · exact h.1 j h'
+            · simp at h'; subst h'; exact hd,
+          h.2.1, h.2.2.1, h.2.2.2⟩
+      exact this
+    · exact ⟨h, rfl⟩
+
+theorem step_J (c : Cfg) (hc : c.disp = .flag) (s t : St) (a : Act) (h : J s) (hs : step c s a = some t) : J t := by
+  simp only [step, Option.map_eq_some_iff] at hs
+  obtain ⟨⟨t', l⟩, h1, h2⟩ := hs
+  simp only at h2; subst h2
+  obtain ⟨hr, he, ht, hb⟩ := h
+  cases a with
+  | loop =>
+    simp only [stepL, loopStep] at h1
+    split at h1
+    · cases h1
+      obtain ⟨⟨a1, a2, a3, a4⟩, _⟩ := collect_J s (heap c s) ⟨hr, he, ht, hb⟩
+      exact ⟨a1, a2, a3, a4⟩
+    · split at h1
+      · next i rest hrd =>
+        have hdue : s.due i = true := hr i (by rw [hrd]; simp)
+        have hrest : ∀ j ∈ rest, s.due j = true := fun j hj => hr j (by rw [hrd]; simp [hj])
+        split at h1
+        · cases h1; exact ⟨hrest, he, ht, hb⟩
+        · next hci =>
+          cases h1
+          refine ⟨hrest, he, by simp [startItem, ht, hdue], ?_⟩
+          have : s.early i = false := by
+            cases hei : s.early i with
+            | false => rfl
+            | true => exact absurd (he i hei) (by simpa using hci)
+          simp [startItem, hb, this]
+      · cases h1; exact ⟨hr, he, ht, hb⟩
+    · split at h1
+      · cases h1; exact ⟨hr, he, ht, hb⟩
+      · split at h1 <;> cases h1 <;> exact ⟨hr, he, ht, hb⟩
+    · split at h1
+      · cases h1; exact ⟨hr, he, ht, hb⟩
+      · cases h1
+    · split at h1
+      · cases h1; exact ⟨hr, he, ht, hb⟩
+      · cases h1
+    · cases h1
+  | tick r =>
+    simp only [stepL, Option.some.injEq, Prod.mk.injEq] at h1
+    obtain ⟨h1, _⟩ := h1; subst h1
+    exact ⟨fun i hi => by simp [hr i hi], he, ht, hb⟩
+  | dispose i =>
+    simp only [stepL, disposeStep, hc] at h1
+    split at h1
+    · cases h1
+    · cases h1
+      refine ⟨hr, fun j hj => ?_, ht, hb⟩
+      by_cases hji : j = i
+      · subst hji; simp [set]
+      · simp only [set, hji, if_false] at hj ⊢; exact he j hj
+
+theorem run_J (c : Cfg) (hc : c.disp = .flag) : ∀ (sch : List Act) (s : St), J s → J (run c s sch) := by
+  intro sch
+  induction sch with
+  | nil => intro s h; exact h
+  | cons a as ih =>
+    intro s h
+    simp only [run]
+    cases hs : step c s a with
+    | none => simpa using ih s h
+    | some t => simpa using ih t (step_J c hc s t a h hs)
+
+theorem init_J : J init := ⟨fun i hi => by simp [init] at hi, fun i hi => by simp [init] at hi, rfl, rfl⟩
+
+end Thr2LoopN
